@@ -85,7 +85,7 @@ def _apply(op, d, p):
         return d, None          # no pandas reference any more: only reference-free steps
     if k in ("loc_slice", "loc_list", "loc_elem") and not d.known_divisions:
         return d, p             # LocUnknown never reports divisions: not a C41 path
-    if k == "set_index" and "w" not in d.columns:
+    if k in ("set_index", "set_index_sorted") and "w" not in d.columns:
         return d, p
     if k == "loc_slice":
         a, b = op[1], op[2]
@@ -137,6 +137,10 @@ def _apply(op, d, p):
         elif len(op) > 2 and op[2]:
             kw["npartitions"] = op[2]      # requested count; repeated quantiles may collapse it
         return d.set_index("w", **kw), p.set_index("w")
+    if k == "set_index_sorted":
+        # the column is already ordered over the partitions: divisions from per-partition min/max, equal keys that
+        # straddle a boundary are moved (fix_overlap); unsorted input is rejected with ValueError
+        return d.set_index("w", sorted=True), p.set_index("w")
     if k == "concat":
         idx2 = op[1]
         df2 = pd.DataFrame({"v": [1000 + i for i in range(len(idx2))], "w": [k2 % 11 for k2 in idx2]},
@@ -189,7 +193,7 @@ def case_pipeline(ctx, inp):
         for op in inp["ops"]:
             if op[0] in ("concat", "merge_index"):
                 unsorted_inside = True      # pieces of several frames are concatenated inside a partition, not sorted
-            elif op[0] in ("set_index", "reset_set"):
+            elif op[0] in ("set_index", "reset_set", "set_index_sorted"):
                 unsorted_inside = False
             if unsorted_inside and op[0] in ("loc_slice", "loc_list", "loc_elem"):
                 # label slicing of a partition whose index is not monotonic is pandas-positional / raises KeyError:
@@ -507,5 +511,6 @@ def generate(ctx):
         if src["kind"] == "presorted_w" and rng.random() < 0.85:
             # the interesting path: set_index on the already ordered column (must shuffle iff a run of equal keys
             # crosses a partition boundary), then at most one more step that relies on the published divisions
-            ops = [["set_index", None]] + [o for o in ops[:1] if o[0] in ("loc_slice", "loc_list", "loc_elem", "partitions", "repartition_n", "assign")]
+            first = ["set_index_sorted"] if rng.random() < 0.35 else ["set_index", None]
+            ops = [first] + [o for o in ops[:1] if o[0] in ("loc_slice", "loc_list", "loc_elem", "partitions", "repartition_n", "assign")]
         yield "pipeline", {"src": src, "ops": ops}
